@@ -121,6 +121,9 @@ namespace embedded_pairing::wkdibe {
                         qualified.a0.add(qualified.a0, temp);
                         x++;
                     }
+                } else if (x != sk.l && sk.b[x].idx == i) {
+                    /* Slot i is hidden in the new key: skip sk's element for it. */
+                    x++;
                 }
                 k++;
             } else if (x != sk.l && sk.b[x].idx == i) {
@@ -157,9 +160,11 @@ namespace embedded_pairing::wkdibe {
         int j = 0; /* Index for writing to qualified.b */
         int k = 0; /* Index for reading from attrs.attrs */
         for (int i = 0; i != params.l; i++) {
-            if (k != attrs.length && !attrs.attrs[k].omitFromKeys && attrs.attrs[k].idx == i) {
-                temp.multiply(params.h[i], attrs.attrs[k].id);
-                sk.a0.add(sk.a0, temp);
+            if (k != attrs.length && attrs.attrs[k].idx == i) {
+                if (!attrs.attrs[k].omitFromKeys) {
+                    temp.multiply(params.h[i], attrs.attrs[k].id);
+                    sk.a0.add(sk.a0, temp);
+                }
                 k++;
             } else if (!attrs.omitAllFromKeysUnlessPresent) {
                 sk.b[j].idx = i;
@@ -186,9 +191,11 @@ namespace embedded_pairing::wkdibe {
         int x = 0; /* Index for reading from sk.b */
         for (int i = 0; x != sk.l && i != params.l; i++) {
             if (k != attrs.length && attrs.attrs[k].idx == i) {
-                if (sk.b[x].idx == i && !attrs.attrs[k].omitFromKeys) {
-                    temp.multiply(sk.b[x].hexp, attrs.attrs[k].id);
-                    qualified.a0.add(qualified.a0, temp);
+                if (sk.b[x].idx == i) {
+                    if (!attrs.attrs[k].omitFromKeys) {
+                        temp.multiply(sk.b[x].hexp, attrs.attrs[k].id);
+                        qualified.a0.add(qualified.a0, temp);
+                    }
                     x++;
                 }
                 k++;
